@@ -195,6 +195,12 @@ func c30Chunks(p *pipe) string {
 }
 
 func c30Canon(s *c30State) string {
+	// All diverged states are one state: the first one reached (the shortest
+	// history, in operation order) is the one c30Final reports; a defect does
+	// not fan out into one report per later operation.
+	if c30Diverged(s) {
+		return "DIVERGED"
+	}
 	var sb strings.Builder
 	fmt.Fprintf(&sb, "%d,%d|%s|", s.p.start, s.p.end, c30Chunks(&s.p))
 	// runs of known / unknown offsets inside the window
@@ -211,9 +217,6 @@ func c30Canon(s *c30State) string {
 		run++
 	}
 	fmt.Fprintf(&sb, "%v%d", cur, run)
-	if c30Diverged(s) {
-		sb.WriteString("|DIVERGED")
-	}
 	return sb.String()
 }
 
@@ -244,13 +247,10 @@ func c30Enabled(s *c30State, op c30Op) bool {
 	case "d":
 		return op.Off >= s.start
 	case "f":
-		if s.p.tail == nil {
-			return false
-		}
-		if op.Mid >= 0 && (op.Mid < s.start || op.Mid > s.end) {
-			return false
-		}
-		return s.end < s.p.tail.off+int64(len(s.p.tail.b)) // some buffer space is available
+		// availableBuffer may be called in any state (Stream.Write does so after
+		// an empty write too); without available space the operation changes
+		// nothing and c30Apply prunes it.
+		return op.Mid < 0 || (op.Mid >= s.start && op.Mid <= s.end)
 	}
 	return true
 }
